@@ -237,10 +237,12 @@ def run(P, R):
         R.check(r5, writes.get(m, set()) == want[m], 'required failure under %s writes %s' % (m, sorted(want[m])),
                 'strategy|process_failure|%s' % m, u.loc(), 'ApplicationStartJobs.process_failure under %s writes %s, '
                 'expected %s' % (m, sorted(writes.get(m, set())), sorted(want[m])))
-    sdef = [a for a in own_nodes(u.node) if isinstance(a, ast.Assign) and ast.unparse(a.targets[0]) == 'failure_strategy']
-    R.check(r5, len(sdef) == 1 and ast.unparse(sdef[0].value) == 'process.rules.starting_failure_strategy',
+    # the strategy compared is the one of the failed process (alias locals are already folded by sa.normalise)
+    srcs = {f[0].split(' ')[0] for n in own_nodes(u.node) if isinstance(n, ast.stmt) for f in fm.at(n)
+            if 'StartingFailureStrategies.' in f[0]}
+    R.check(r5, srcs == {'process.rules.starting_failure_strategy'},
             'the strategy applied is the one of the failed process', 'strategy|source', u.loc(),
-            'process_failure reads the strategy from %s' % [ast.unparse(a.value) for a in sdef])
+            'process_failure compares %s with the StartingFailureStrategies members' % sorted(srcs))
     u = P.unit('Starter.after')
     fm = factmap(u)
     sc = [c for c in own_nodes(u.node) if isinstance(c, ast.Call) and call_text(c) == 'self.supvisors.stopper.stop_application']
